@@ -51,6 +51,10 @@ OPERATORS = [
 ]
 
 
+def is_hex(s):
+    return s != "" and all(ch in "0123456789abcdefABCDEF" for ch in s)
+
+
 class SourcePos:
     def __init__(self, filename, line, column):
         self.filename = filename
@@ -352,6 +356,11 @@ class Lexer:
 
             elif state == 312:  # hex num second digit
                 tempbuf += ch
+                if not is_hex(tempbuf):
+                    raise CklSyntaxError(
+                        f"Invalid hex escape \\x{tempbuf}",
+                        SourcePos(fname, line, column),
+                    )
                 token += chr(int(tempbuf, 16))
                 tempbuf = ""
                 state = 3
@@ -389,6 +398,11 @@ class Lexer:
 
             elif state == 412:  # hex num second digit
                 tempbuf += ch
+                if not is_hex(tempbuf):
+                    raise CklSyntaxError(
+                        f"Invalid hex escape \\x{tempbuf}",
+                        SourcePos(fname, line, column),
+                    )
                 token += chr(int(tempbuf, 16))
                 tempbuf = ""
                 state = 4
@@ -452,6 +466,8 @@ class Lexer:
                     token += ch
                 elif ch in "()[]<>=! \t\n\r+-*/%,;#":
                     here = SourcePos(fname, line, column - len(token))
+                    if not is_hex(token.replace("_", "")):
+                        raise CklSyntaxError("Invalid hex literal", here)
                     token = str(int(token.replace("_", ""), 16))
                     self.tokens.append(Token(token, "int", here))
                     token = ""
@@ -467,6 +483,8 @@ class Lexer:
                     token += ch
                 elif ch in "()[]<>=! \t\n\r+-*/%,;#":
                     here = SourcePos(fname, line, column - len(token))
+                    if token.replace("_", "") == "":
+                        raise CklSyntaxError("Invalid binary literal", here)
                     self.tokens.append(
                         Token(str(int(token.replace("_", ""), 2)), "int", here)
                     )
